@@ -45,6 +45,7 @@ func scenC10(r *Run, job *Job) {
 	}
 	w := r.NewWorld(WorldCfg{TimeoutSec: timeoutSec, ExtFiles: ExtFiles(exts)}, job.Seed)
 	e := w.NewEngine()
+	e.HoldAcrossTimers = len(r.Holds) > 0 && t.Chance(1, 3)
 	e.Bound = time.Duration(4*(timeoutSec+8)) * time.Second
 	mode := map[string]string{"during-timeout-reset": "stall", "during-failure-reset": "exit", "reset-tail": resetTailMode}[c10Phases[phase]]
 	e.BehavFor = BehavForExts(exts, func(p *Proc, b *Behav) {
